@@ -19,6 +19,16 @@ From V Require Import Proto.DetachOnCancelDefs.
 From V Require Import Proto.MutexV2Defs.
 From V Require Import Proto.CancellableDefs.
 From V Require Import Proto.TrampolineDefs.
+From V Require Import Calc.TraitsDefs.
+From V Require Import Proto.AtomicQueueDefs.
+From V Require Import Proto.StopOnRequestDefs.
+From V Require Import Proto.AutoResetDefs.
+From V Require Import Proto.CanaryDefs.
+From V Require Import Proto.AnyBoxDefs.
+From V Require Import Calc.StreamDefs.
+From V Require Import Proto.FutureDefs.
+From V Require Import Calc.TaskDefs.
+From V Require Import Proto.UnsafeLoopDefs.
 Extraction Blacklist List String Int.
 Cd "../ocaml".
 Extraction "model.ml"
@@ -116,5 +126,62 @@ Extraction "model.ml"
   Tramp.eval
   Tramp.finished
   Tramp.max_nest
+  CalcTraits.blocking_of
+  CalcTraits.sends_done_of
+  CalcTraits.affine_of
+  AtomicQueue.step
+  AtomicQueue.init
+  AtomicQueue.final
+  StopOnRequest.step
+  StopOnRequest.init
+  StopOnRequest.quiescent
+  StopOnRequest.completions
+  StopOnRequest.freed
+  StopOnRequest.destroyed
+  StopOnRequest.late
+  StopOnRequest.badtd
+  StopOnRequest.cbs
+  AutoReset.step
+  AutoReset.init
+  AutoReset.quiescent
+  AutoReset.pcs
+  AutoReset.results
+  AutoReset.s3v
+  AutoReset.ev
+  AutoReset.mtx
+  Canary.step
+  Canary.init
+  Canary.late
+  Canary.blocked_unheld
+  Canary.quiescent
+  Canary.guard
+  AnyBox.step
+  AnyBox.init
+  AnyBox.finish
+  AnyBox.exec
+  AnyBox.run
+  SCalc.exec
+  SCalc.x_tr
+  SCalc.x_roots
+  SCalc.fixed
+  SCalc.as_written
+  Future.step
+  Future.init
+  Future.quiescent
+  Future.expected
+  TCalc.exec
+  TCalc.r_tr
+  TCalc.r_cfg
+  TCalc.monitor
+  TCalc.mon_first_bad
+  TCalc.m0
+  TCalc.roots
+  UnsafeLoop.step
+  UnsafeLoop.init
+  UnsafeLoop.completions
+  UnsafeLoop.queue_ids
+  UnsafeLoop.crashed
+  UnsafeLoop.now
+  UnsafeLoop.inloop
   (*END*).
 Cd "../coq".
